@@ -126,7 +126,8 @@ def driver_source(base, schema, R):
 
 
 class Peer(object):
-    def __init__(self, base, hpp, cpp, schema, R, cxx=None):
+    def __init__(self, base, hpp, cpp, schema, R, cxx=None, extra=()):
+        """extra: [(basename, hpp text, cpp text)] of included schemas generated in the same compiler run"""
         self.dir = tempfile.mkdtemp(prefix="verif-cpp-", dir="/dev/shm" if os.path.isdir("/dev/shm") else None)
         self.proc = None
         self.restarts = 0
@@ -136,10 +137,17 @@ class Peer(object):
                 f.write(hpp)
             with open(os.path.join(self.dir, base + ".ppf.cpp"), "w") as f:
                 f.write(cpp)
+            more = []
+            for b, h, c in extra:
+                with open(os.path.join(self.dir, b + ".ppf.hpp"), "w") as f:
+                    f.write(h)
+                with open(os.path.join(self.dir, b + ".ppf.cpp"), "w") as f:
+                    f.write(c)
+                more.append(b + ".ppf.cpp")
             src, self.types = driver_source(base, schema, R)
             with open(os.path.join(self.dir, "driver.cpp"), "w") as f:
                 f.write(src)
-            cmd = [cxx or CXX] + CXXFLAGS + ["-I", INCLUDE, "-I", self.dir, base + ".ppf.cpp", "driver.cpp", "-o", "peer"]
+            cmd = [cxx or CXX] + CXXFLAGS + ["-I", INCLUDE, "-I", self.dir, base + ".ppf.cpp"] + more + ["driver.cpp", "-o", "peer"]
             p = subprocess.run(cmd, cwd=self.dir, stdout=subprocess.PIPE, stderr=subprocess.PIPE, timeout=600)
             if p.returncode != 0:
                 raise BuildFailed(p.stderr.decode("utf-8", "replace")[:3000])
